@@ -61,6 +61,12 @@ RULE = (
     "digest; non-trivial = the fault was reached at least once in the simulation and natively"
 )
 ASSUMPTIONS = [
+    "MemoryError is not among the injected exception classes: CPython keeps freed MemoryError objects on a free "
+    "list and revives them without resetting __suppress_context__ (checked on 3.12.1: after 'raise MemoryError(..) "
+    "from None' the next MemoryError() object has __suppress_context__ == True), so whether a later MemoryError "
+    "shows its context section depends on which earlier MemoryError objects of the process were freed - for "
+    "CPython's own traceback and for pyscript's alike. With it the comparison depended on the position of a run "
+    "in its worker process (found by vp check with VERIF_SEED=1: a violation that did not replay)",
     "reference for type, message and (file, function, line) triples is the running CPython (3.12) executing "
     "the same rendered source with no-op stubs for pyscript-only names (sim, task, trigger decorators)",
     "'that script's logger' = custom_components.pyscript.file.<f> / .modules.<m> or any child logger",
@@ -289,7 +295,7 @@ BUILTIN_EXCS = [
     "ZeroDivisionError", "OverflowError", "FloatingPointError", "AssertionError", "AttributeError", "TypeError",
     "NameError", "UnboundLocalError", "NotImplementedError", "RecursionError", "OSError", "FileNotFoundError",
     "PermissionError", "TimeoutError", "ConnectionError", "BrokenPipeError", "EOFError", "ImportError",
-    "ModuleNotFoundError", "MemoryError", "BufferError", "ReferenceError", "UnicodeError", "SyntaxError",
+    "ModuleNotFoundError", "BlockingIOError", "BufferError", "ReferenceError", "UnicodeError", "SyntaxError",
     "IndentationError", "SystemError", "UserWarning", "DeprecationWarning", "StopIteration", "StopAsyncIteration",
 ]
 FILLERS = [
@@ -1067,11 +1073,21 @@ def _merge_same_name(nat: list, spec: dict) -> list:
         m = re.match(r"c18_wrap(\d+)$", fr[1])
         renamed.append((fr[0], f"c18_f{m.group(1)}", fr[2]) if m else fr)
     out: list = []
+    out_native: list = []
     for fr in renamed:
-        if out and out[-1][0] == fr[0] and out[-1][1] == fr[1]:
+        # (frames of natively compiled code are Python's own traceback entries: the interpreter's formatter does not
+        # build them, so the recorded merging does not touch two of them in a row - eg 'raise err' and the line that
+        # raised first inside one @pyscript_compile function)
+        # (only for functions compiled at file level: a @pyscript_compile function defined inside a function is
+        # native the first time its enclosing function runs and interpreted afterwards - ast_functiondef rewrites
+        # the decorator list of the AST node - so its frames can be the interpreter's)
+        native = _role(fr, spec) == "compiled_function"
+        if out and out[-1][0] == fr[0] and out[-1][1] == fr[1] and not (native and out_native[-1]):
             out[-1] = fr
+            out_native[-1] = native
         else:
             out.append(fr)
+            out_native.append(native)
     return out
 
 
